@@ -5,6 +5,7 @@ import (
 	"go/ast"
 	"go/token"
 	"go/types"
+	"os"
 	"strings"
 
 	"golang.org/x/tools/go/ssa"
@@ -583,6 +584,13 @@ func ruleMigrateRound2(c *Ctx) {
 				}
 			}
 			c.floor("C13.6", "field-collection sites in transformStruct", n, 1)
+			for _, f2 := range withClosures(ts) {
+				for _, a := range appendsIn(L, f2) {
+					if strings.Contains(a.call.Type().String(), "fieldInfo") {
+						ruleFieldInclusionFunction(c, "C13.6", f2, a.call)
+					}
+				}
+			}
 		}
 	}
 	if c.Prop == "C14" {
@@ -736,4 +744,131 @@ func ruleParamsNamedFirst(c *Ctx, rule string) {
 		}
 		c.check(nameCall != nil && specs != nil && strictlyBefore(nameCall, specs), rule, "generateAsyncInitialization:context-named-before-variables", L.pos(fn.Pos()), "the context parameter's name is fixed before the shared variables are named", "call order")
 	}
+}
+
+// ruleFieldInclusionFunction: the documented inclusion rule as a truth function. When the atoms of the decision can be told
+// apart - "*" selected, listed by name, the field is exported, the struct is another package's - a field is collected
+// exactly when (star or listed) and not (external and unexported): an unexported field of the injector's own package is
+// part of what wire.Struct fills, under "*" as under an explicit list.
+func ruleFieldInclusionFunction(c *Ctx, rule string, fn *ssa.Function, target ssa.Instruction) {
+	L := c.L
+	rows, ids, err := truthTable(L, fn.Blocks[0], target, nil)
+	if err != "" {
+		return // reported by the field-inclusion rule
+	}
+	class := map[string]string{}
+	count := map[string]int{}
+	for _, id := range ids {
+		k := "other"
+		switch {
+		case strings.Contains(id, "Exported("):
+			k = "exported"
+		case strings.Contains(id, "\"*\""):
+			k = "star"
+		case strings.Contains(id, "ontains(") || strings.Contains(id, "slices.Index("):
+			k = "listed"
+		case strings.Contains(id, "go/types.Var") || strings.Contains(id, "Struct).Tag(") || strings.Contains(id, "Struct).Field("):
+			k = "field"
+		}
+		class[id] = k
+		count[k]++
+	}
+	if os.Getenv("KVERIF_DEBUG") != "" {
+		fmt.Fprintf(os.Stderr, "field-inclusion atoms: %v %v\n", ids, class)
+	}
+	// loop plumbing with more than two states (the state word of a range-over-func loop): the body runs in one state only
+	for _, id := range ids {
+		if class[id] != "other" {
+			continue
+		}
+		isBool := true
+		live := map[tval]bool{}
+		for _, r := range rows {
+			if !r.atoms[id].isBool {
+				isBool = false
+			}
+			if r.reached {
+				live[r.atoms[id]] = true
+			}
+		}
+		if isBool || len(live) != 1 {
+			continue
+		}
+		var keep []tableRow
+		for _, r := range rows {
+			if live[r.atoms[id]] {
+				keep = append(keep, r)
+			}
+		}
+		rows = keep
+		class[id] = "plumbing"
+	}
+	// the remaining atoms: loop plumbing (range progress) and the struct-level "another package's struct" fact; the latter is
+	// the one atom of them the outcome depends on at all
+	var ext []string
+	for _, id := range ids {
+		if class[id] != "other" {
+			continue
+		}
+		dep := false
+		for _, r := range rows {
+			for _, q := range rows {
+				if r.errExit || q.errExit || r.stuck || q.stuck || r.reached == q.reached {
+					continue
+				}
+				same := true
+				for _, o := range ids {
+					if o != id && r.atoms[o] != q.atoms[o] {
+						same = false
+						break
+					}
+				}
+				if same {
+					dep = true
+				}
+			}
+		}
+		if dep {
+			ext = append(ext, id)
+		}
+	}
+	if count["exported"] != 1 || count["star"] != 1 || count["listed"] != 1 || count["field"] != 0 || len(ext) != 1 {
+		c.ok(rule, "field inclusion: the atoms of the decision are not the four documented ones; only the dependence rule applies", fmt.Sprintf("%v, struct-level: %v", class, ext))
+		return
+	}
+	var star, listed, exported string
+	for id, k := range class {
+		switch k {
+		case "star":
+			star = id
+		case "listed":
+			listed = id
+		case "exported":
+			exported = id
+		}
+	}
+	// the polarity of the struct-level atom is not visible in its name (a flag set on some path): take the polarity under
+	// which the exported-field rows agree, then compare every row
+	bad := ""
+	okPolarity := false
+	for _, extTrue := range []bool{true, false} {
+		bad = ""
+		for _, r := range rows {
+			if r.errExit || r.stuck {
+				continue
+			}
+			external := r.atoms[ext[0]].b == extTrue
+			want := (r.atoms[star].b || r.atoms[listed].b) && !(external && !r.atoms[exported].b)
+			if want != r.reached {
+				bad = fmt.Sprintf("star=%v listed=%v exported=%v other-package=%v: collected=%v", r.atoms[star].b, r.atoms[listed].b, r.atoms[exported].b, external, r.reached)
+				break
+			}
+		}
+		if bad == "" {
+			okPolarity = true
+			break
+		}
+	}
+	c.check(okPolarity, rule, "transformStruct:field-inclusion-function", L.pos(target.Pos()),
+		"a field is collected exactly when it is selected (\"*\" or listed) and is not an unexported field of another package's struct", bad)
 }
